@@ -312,6 +312,38 @@ def main_check(pid, tier, seed, replay=None):
         ex = cases[mismatches[0]]
         problems.append(("correspondence", "model and implementation disagree on %d of %d cases, first: %s"
                          % (len(mismatches), len(cases), json.dumps(ex.get("sample"))[:1500])))
+    # 4a. search for a failing input when the tie or a proof broke but no monitor failed yet:
+    #     perturbation/fault variants of the disagreeing cases (driver's -variants mode), and a
+    #     larger random sample with another seed
+    if (mismatches or problems) and not failing and spec.get("search") and not replay:
+        sc = spec["search"]
+        drv = spec["drivers"][sc.get("driver", 0)]
+        extra_cases = []
+        if mismatches and sc.get("variants"):
+            vin = os.path.join(wd, "search_in.jsonl")
+            with open(vin, "w") as f:
+                for i in mismatches[:sc.get("max_seeds", 10)]:
+                    f.write(json.dumps({k: v for k, v in cases[i].items() if not k.startswith("_")}) + "\n")
+            outp = os.path.join(wd, "search_variants.jsonl")
+            rc, out, dt, cmd = run_driver(drv, seed, 0, outp, extra=["-variants", vin], timeout=900)
+            extra_cases += read_cases(outp)
+            notes.append("search: %d variants of %d disagreeing cases rc=%d %.1fs" % (len(extra_cases), min(len(mismatches), sc.get("max_seeds", 10)), rc, dt))
+        if sc.get("more"):
+            outp = os.path.join(wd, "search_more.jsonl")
+            rc, out, dt, cmd = run_driver(drv, seed + 1000003, sc["more"], outp, timeout=1500)
+            more = read_cases(outp)
+            extra_cases += more
+            notes.append("search: %d more random cases rc=%d %.1fs" % (len(more), rc, dt))
+        if extra_cases:
+            base = len(cases)
+            for j, c in enumerate(extra_cases):
+                c["_src"] = "search#%d" % j
+            bad2, err2 = eval_cases(pid, spec, extra_cases, wd, tag="search")
+            cases.extend(extra_cases)
+            for j, cs in bad2.items():
+                bad[base + j] = cs
+                if any(c >= 10 for c in cs):
+                    failing[base + j] = [c for c in cs if c >= 10]
     # 4b. property-specific extra steps (e.g. real TLS sessions, race-detector stress)
     extra_cov, extra_viol = {}, []
     for stepf in spec.get("extra_steps", []):
